@@ -9,13 +9,20 @@ Part M (models)  every model of a stated family (all 1- and 2-equation models ov
                  3-equation family; a listed "lead" family that only `equations_dates` can
                  simulate; LHS spellings `diff(x)`, `diff(x, -1)`, `difflog(x)`), with no plan and
                  with a standard plan (every non-identity variable exogenized at two dates), both
-                 orders, non-zero residual paths with one missing and one explicit-zero entry.
+                 orders, non-zero residual paths with one missing and one explicit-zero entry; every model
+                 that has a parameter again with an OLD CALIBRATION LEFT IN THE INPUT DATABOX (an item named
+                 like each parameter whose value differs from the assigned one: a plain number, a Series
+                 over the span, a per-variant list) - default options, so the model's values must be used.
 Part P (plans)   skeleton models x exogenized variable x EVERY non-empty subset of a 3-period
                  window x 6 plan transforms x when_data in {F,T} x data present on EVERY subset
                  of the window (quick: every subset of the exogenized dates) x {zero, non-zero}
                  input residual at the exogenized variable x both orders (x 2 variants for a listed
                  part); plus both variables of a 2-equation skeleton exogenized on every pair of
-                 non-empty window subsets.
+                 non-empty window subsets; plus the PLAN DATA HELD IN A DIFFERENTLY NAMED SERIES
+                 (exogenize(..., name_format="{}_tune" | "tune_{}"), every plan transform x when_data x
+                 listed date subsets x every presence subset x residual mode) while the variable's own /
+                 the default-named series holds different present values; plus the stale-calibration
+                 databoxes of part M on listed plans.
 
 The reference also simulates the model itself (hand inversion of the six transforms), which
 (i) decides, without looking at the implementation, whether an order computes every value
@@ -46,7 +53,11 @@ RULE = ("Part M: every generated model (LHS transform x identity x subset of RHS
         "{no plan, standard plan} x both execution orders; Part P: skeleton x exogenized variable x every "
         "non-empty subset of a 3-period window x plan transform x when_data x every data-presence subset x "
         "{zero, non-zero} input residual x both orders, and two variables exogenized on every pair of subsets; "
-        "a case is distinct by (model text, plan, presence, residual mode, prepend, order, variants) and "
+        "further dimensions: plan name format {default, '{}_tune', 'tune_{}'} (plan data read from the named series, "
+        "stale data under the variable's own / default name) and input databox {clean, old calibration under the "
+        "parameters' names as number / Series / per-variant list}; "
+        "a case is distinct by (model text, plan incl. name format, presence, residual mode, prepend, stale-parameter "
+        "item, order, variants) and "
         "non-trivial when the reference says the order computes every value before it is read and the "
         "implementation was executed and judged on the output")
 MANIFEST_ENTRY = dict(
@@ -61,14 +72,22 @@ MANIFEST_ENTRY = dict(
          "non-zero residuals, with and without a plan; 24 (quick) / 198 (thorough) skeleton models are simulated under "
          "every plan that exogenizes one variable on every subset of a 3-period window with each of the 6 plan "
          "transforms, when_data on/off, data present on every subset, zero and non-zero input residuals, 1 and 2 "
-         "variants, and with both variables exogenized on every pair of subsets (quick 51 540, thorough ~0.9M "
-         "simulations). In every simulated period transform(lhs) = rhs + residual is re-evaluated on the output, "
+         "variants, and with both variables exogenized on every pair of subsets. Every plan shard also runs with the "
+         "plan data in a differently named series (name_format '{}_tune' / 'tune_{}': all 6 plan transforms x when_data "
+         "x listed (thorough: all) date subsets x every presence subset of the dates x residual mode), the variable's "
+         "own series (level plans) and the default-named series (other transforms) holding different present values; "
+         "every model with a parameter (quick 4 032 of the 2-equation family, all plan skeletons) also runs with an old "
+         "calibration left in the input databox under the parameters' names (plain number, Series over the span, "
+         "per-variant list for 2 variants; values differ from the assigned ones by >= 0.05) under the default "
+         "parameters_from_data=False, where the equations must hold with the model's assigned parameters "
+         "(quick 108 706 simulations, thorough ~2M). In every simulated period transform(lhs) = rhs + residual is re-evaluated on the output, "
          "exogenized variables must equal the implied value, other residuals must be unchanged, and the path must "
          "equal the reference simulation; order pairs that read a value before it is written are excluded by the "
          "reference's analysis and counted.",
     note="Trusted: ref/expr.py evaluator and the 40-line reference simulator in this module. Values come from small "
-         "fixed tables (rotated by the seed); spans other than 4 periods, lags beyond 2, RHS pseudofunctions, custom "
-         "plan name formats and shift= are not covered. The defect found here (exogenized residual = 'needed - input "
+         "fixed tables (rotated by the seed); spans other than 4 periods, lags beyond 2, RHS pseudofunctions and the "
+         "plan option shift= are not covered; parameters_from_data=True is not part of the statement and is only "
+         "recorded (observed_parameters_from_data_true_*: single-equation models, number item). The defect found here (exogenized residual = 'needed - input "
          "residual') was repaired in /repo (f603713, DESIGN.md 9.3).")
 ASSUMPTIONS = [
     "an order 'computes every value before it is read' iff every LHS variable read inside the span was written earlier "
@@ -77,6 +96,9 @@ ASSUMPTIONS = [
     "cells the reference says depend on a NaN are not judged)",
     "values outside the simulated span (initial and terminal conditions) are inputs and are read from the input databox",
     "a missing input residual means 0 (documented fallback)",
+    "under the default parameters_from_data=False 'the equation' is the equation with the parameter values assigned in "
+    "the model, whatever the input databox holds under a parameter's name",
+    "with name_format given, the plan data of variable x are the series named name_format.format(x) and nothing else",
 ]
 
 NAN = float("nan")
@@ -100,6 +122,9 @@ ROT = (1.0, 0.9, 1.1, 0.8, 1.05)
 INIT = (1.1, 1.4, 0.9, 1.25, 1.6)
 WV = (0.5, 0.8, 0.3, 1.1, 0.65)
 RES = (0.013, -0.021, 0.017, 0.029, -0.011)
+NAME_FORMATS = ("{}_tune", "tune_{}")       # custom name formats of the series that holds the plan data
+PARDB = ("number", "series")                # how an old calibration sits in the input databox under a parameter's name
+STALE_PAR = (0.25, 0.05, 0.11)              # stale parameter = assigned + offset (+ slope * row) (+ step * variant)
 PV = {"none": (1.3, 0.1), "log": (0.2, 0.05), "diff": (0.11, 0.02), "diff_log": (0.04, 0.01),
       "roc": (1.07, -0.02), "pct": (2.5, 0.5)}
 
@@ -159,8 +184,16 @@ def safe_ev(tree, get, t):
         return NAN
 
 
-def plan_series(ptr, name):
+def plan_series(ptr, name, nf=None):
+    """name of the databox series that holds the plan data: the documented default (x, log_x, diff_x, ...) unless
+    the plan was given a name format, then the format with the variable's name filled in"""
+    if nf:
+        return nf.replace("{}", name)
     return name if ptr == "none" else "%s_%s" % (ptr, name)
+
+
+def pardb_kinds(nv):
+    return PARDB + (("list",) if nv == 2 else ())
 
 
 class Model:
@@ -211,7 +244,7 @@ class Model:
             reads = set(E.occurrences(rhs))
             if tr in LAGGED:
                 reads.add((name, -1))
-            self.eqs.append(dict(name=name, tr=tr, ident=bool(e["id"]), lhs=E.expand_pf(lhs_tree(tr, name)),
+            self.eqs.append(dict(name=name, tr=tr, ident=bool(e["id"]), has_par=("par" in e["terms"]), lhs=E.expand_pf(lhs_tree(tr, name)),
                                  rhs=rhs, res=None if e["id"] else "res_" + name, reads=sorted(reads),
                                  text="%s %s %s" % (lhs_text(tr, name, spec.get("spelling", "default")),
                                                     "===" if e["id"] else "=", E.render(rhs))))
@@ -262,12 +295,12 @@ class Model:
 # ---------------------------------------------------------------------------
 
 def plan_cells(M, plan):
-    """{(eq index, t): (plan transform, when_data)}"""
+    """{(eq index, t): (plan transform, when_data, name format or None)}"""
     cells = {}
     if plan:
         for j, dates, ptr, wd in plan["entries"]:
             for t in dates:
-                cells[(j, t)] = (ptr, bool(wd))
+                cells[(j, t)] = (ptr, bool(wd), plan.get("nf"))
     return cells
 
 
@@ -297,8 +330,15 @@ def make_inputs(M, plan, resmode, nv, seed):
         if plan:
             for j, dates, ptr, wd in plan["entries"]:
                 name = M.names[j]
-                sname = plan_series(ptr, name)
+                nf = plan.get("nf")
+                sname = plan_series(ptr, name, nf)
                 a, b = PV[ptr]
+                if nf and ptr != "none":
+                    # the plan data live in a differently named series: the default-named series is a decoy that
+                    # holds different, present values (for the level transform the decoy is the variable's own
+                    # stale data inside the span, written above)
+                    for t in WINDOW:
+                        tab[(plan_series(ptr, name), t)] = (a + b * t + 0.05 * j) * 1.07 + 0.21
                 for t in WINDOW:
                     ok = present is None or t in present
                     tab[(sname, t)] = ((a + b * t + 0.05 * j) * (1.1 if v else 1.0)) if ok else NAN
@@ -328,6 +368,30 @@ def to_databox(tabs):
             continue
         db[name] = ir.Series(start=START + TMIN, values=arr)
     return db
+
+
+def stale_parameters(M, kind, nv, seed):
+    """an old calibration left in the input databox under the parameters' names: {name: databox item}; every value
+    differs from the value assigned in the model (variant by variant) by at least 0.05.  The reference never sees
+    these items: under the default options the model's assigned parameters are the ones that count."""
+    off, slope, step = STALE_PAR
+    pars = [M.param_values(seed, v) for v in range(nv)]
+    items = {}
+    for name in M.par_names:
+        if kind == "number":
+            vals = [[pars[0][name] + off for v in range(nv)]]
+            items[name] = vals[0][0]
+        elif kind == "list":
+            vals = [[pars[v][name] + off + step * v for v in range(nv)]]
+            items[name] = list(vals[0])
+        elif kind == "series":
+            vals = [[pars[v][name] + off + slope * (t - TMIN) + step * v for v in range(nv)] for t in range(TMIN, T + 1)]
+            items[name] = ir.Series(start=START + TMIN, values=np.array(vals, dtype=float))
+        else:
+            raise KeyError(kind)
+        if any(abs(row[v] - pars[v][name]) < 0.05 for row in vals for v in range(nv)):
+            raise RuntimeError("stale parameter too close to the assigned value: %s %r" % (name, vals))
+    return items
 
 
 def grab(series, nv):
@@ -371,8 +435,8 @@ def ref_simulate(M, order, cells, tab_in, par):
         kind = "simulated"
         pt = cells.get((i, t))
         if pt is not None and not eq["ident"]:
-            ptr, wd = pt
-            dv = tab.get((plan_series(ptr, x), t), NAN)
+            ptr, wd, nf = pt
+            dv = tab.get((plan_series(ptr, x, nf), t), NAN)
             if dv != dv:
                 kind = "skipped_when_data" if wd else "exogenized_missing"
             else:
@@ -407,15 +471,16 @@ def set_zero_level_data(M, case, cells, tabs, seed):
     """case["zero_at"]: the plan data of the (single) exogenized variable at that date are replaced by the value
     whose implied LEVEL is exactly 0.0 (level 0; diff = -x[t-1]; roc 0; pct -100)"""
     j, dates, ptr, wd = case["plan"]["entries"][0]
+    nf = case["plan"].get("nf")
     x = M.names[j]
     t0 = case["zero_at"]
     for v, tab in enumerate(tabs):
         if ptr == "diff":
             order0 = [o for o in ORDERS if M.valid(o)][0]
             r0, _ = ref_simulate(M, order0, cells, tab, M.param_values(seed, v))
-            tab[(plan_series(ptr, x), t0)] = -r0[(x, t0 - 1)]
+            tab[(plan_series(ptr, x, nf), t0)] = -r0[(x, t0 - 1)]
         else:
-            tab[(plan_series(ptr, x), t0)] = ZERO_PLAN_DATA[ptr]
+            tab[(plan_series(ptr, x, nf), t0)] = ZERO_PLAN_DATA[ptr]
     return (x, t0)
 
 
@@ -440,15 +505,41 @@ def build_irispie_model(M, nv, seed, reverse=False):
 
 def build_plan(m, M, plan, span):
     p = ir.SimulationPlan(m, span)
+    kw = {"name_format": plan["nf"]} if plan.get("nf") else {}
     for j, dates, ptr, wd in plan["entries"]:
         p.exogenize(tuple(START + t for t in dates), M.names[j],
-                    transform=(None if ptr == "none" else ptr), when_data=bool(wd))
+                    transform=(None if ptr == "none" else ptr), when_data=bool(wd), **kw)
     return p
 
 
+def observe_parameters_from_data(M, m, case, db, span, order, tabs, cells, nv, kw, res, seed):
+    """NOT part of the statement, recorded only: what parameters_from_data=True does with the stale calibration
+    (number kind: one value for every variant and period, so the reference can be re-run with it)"""
+    try:
+        out = m.simulate(db, span, execution_order=order, when_simulates_nan="silent", parameters_from_data=True, **kw)
+    except Exception as e:
+        res.count("observed_parameters_from_data_true_raises_%s" % type(e).__name__)
+        return
+    stale = stale_parameters(M, "number", nv, seed)
+    follows = True
+    for v in range(nv):
+        ref_tab, _ = ref_simulate(M, order, cells, tabs[v], stale)
+        for name in M.names:
+            if name not in out:
+                follows = False
+                continue
+            arr, _ok = grab(out[name], nv)
+            for t in range(T):
+                a, b = float(arr[t - TMIN, v]), ref_tab[(name, t)]
+                if b == b and not abs(a - b) <= 1e-9 * (1.0 + abs(b)):
+                    follows = False
+    res.count("observed_parameters_from_data_true_" + ("uses_the_databox_values" if follows else "other"))
+
+
 def run_case(M, m, case, res, ctx_seed):
-    """case: dict(model=spec, plan=None|{entries, present}, resmode, nv, prepend, orders)"""
+    """case: dict(model=spec, plan=None|{entries, present[, nf]}, resmode, nv, prepend, orders[, pardb, zero_at, reverse])"""
     plan, resmode, nv, prepend = case["plan"], case["resmode"], case["nv"], case["prepend"]
+    pardb = case.get("pardb") if M.par_names else None
     cells = plan_cells(M, plan)
     tabs = make_inputs(M, plan, resmode, nv, ctx_seed)
     zero_cell = None
@@ -457,8 +548,8 @@ def run_case(M, m, case, res, ctx_seed):
     span = START >> (START + T - 1)
     db = None
     outs = {}
-    ckey = "%s#%r#%s#%d#%d#%s#%r" % (M.key(), None if not plan else (plan["entries"], plan.get("present")), resmode, nv, prepend,
-                                        "reversed" if case.get("reverse") else "", case.get("zero_at"))
+    ckey = "%s#%r#%s#%d#%d#%s#%r#%r" % (M.key(), None if not plan else (plan["entries"], plan.get("present"), plan.get("nf")), resmode, nv, prepend,
+                                           "reversed" if case.get("reverse") else "", case.get("zero_at"), pardb)
     seen = res.__dict__.setdefault("_c17_seen", set())
 
     def cls_once(name, value):
@@ -467,6 +558,7 @@ def run_case(M, m, case, res, ctx_seed):
             seen.add(k)
             res.cls(name, value)
     plan_obj = None
+    observed = set()
     for order in case.get("orders", ORDERS):
         if not M.valid(order):
             res.exclude("order_reads_before_write")
@@ -481,6 +573,9 @@ def run_case(M, m, case, res, ctx_seed):
             continue
         if db is None:
             db = to_databox(tabs)
+            if pardb:
+                for pname, item in stale_parameters(M, pardb, nv, ctx_seed).items():
+                    db[pname] = item
         res.ev()
 
         def bad(check, detail="", **sig):
@@ -539,8 +634,15 @@ def run_case(M, m, case, res, ctx_seed):
                     sig = dict(lhs_transform=tr, identity=eq["ident"], cell=kind,
                                input_residual=("none" if eq["ident"] else ("zero" if rin == 0.0 else "nonzero")),
                                plan_transform=(pt[0] if pt else "-"), when_data=(pt[1] if pt else "-"))
+                    custom = bool(pt and pt[2]) and not eq["ident"]
+                    if custom:
+                        sig["plan_name_format"] = pt[2]
+                    if pardb:
+                        sig["stale_parameters_in_databox"] = pardb
                     if kind == "exogenized_missing":
                         res.count("cells_exogenized_missing")
+                        if custom:
+                            res.count("cells_exogenized_missing_custom_name")
                         if out_tab[(x, t)] == out_tab[(x, t)]:
                             bad("exogenized_missing_not_nan", "%s[%d]=%r although when_data=False and the data point "
                                 "is missing" % (x, t, out_tab[(x, t)]), **sig)
@@ -563,6 +665,13 @@ def run_case(M, m, case, res, ctx_seed):
                     r = out_tab[(eq["res"], t)] if eq["res"] else 0.0
                     scale = 1.0 + max(abs(q) for q in vals) + abs(lhs) + abs(rhs) + (100.0 if tr == "pct" else 0.0)
                     res.count("cells_" + kind + ("" if kind != "exogenized" else "_%s_input_residual" % sig["input_residual"]))
+                    if custom:
+                        res.count("cells_%s_custom_name" % kind)
+                        if kind == "exogenized" and pt[0] == "none":
+                            res.count("cells_exogenized_custom_name_level_transform")      # own series holds stale data
+                        cls_once("custom_name_lhs_x_plan_transform", [tr, pt[0], pt[1], kind])
+                    if pardb and eq["has_par"]:
+                        res.count("cells_parameter_equation_stale_%s_in_databox" % pardb)
                     if not (abs(lhs - rhs - r) <= TOL * scale):
                         bad("equation_holds", "%s at t=%d (variant %d): transform(lhs)=%r rhs=%r residual=%r gap=%r"
                             % (eq["text"], t, v, lhs, rhs, r, lhs - rhs - r), **sig)
@@ -571,7 +680,7 @@ def run_case(M, m, case, res, ctx_seed):
                         if (x, t) == zero_cell:
                             res.count("cells_exogenized_to_exact_zero")
                             sig["implied_level"] = "exactly zero"
-                        dv = in_tab[(plan_series(ptr, x), t)]
+                        dv = in_tab[(plan_series(ptr, x, pt[2]), t)]
                         got = safe_ev(E.expand_pf(lhs_tree(ptr, x)), get, t)
                         pscale = 1.0 + abs(dv) + abs(out_tab[(x, t)]) + (100.0 if ptr == "pct" else 0.0)
                         if not (abs(got - dv) <= TOL * pscale):
@@ -585,8 +694,13 @@ def run_case(M, m, case, res, ctx_seed):
         res.nt(engine.short_hash(ckey + order))
         if judged_all:
             res.count("cases_fully_judged")
-        for (i, t), (ptr, wd) in cells.items():
+        for (i, t), (ptr, wd, nf) in cells.items():
             cls_once("lhs_x_plan_transform", [M.eqs[i]["tr"], ptr, wd])
+        if pardb:
+            res.count("cases_stale_parameters_%s" % pardb)
+            if case.get("observe_pfd") and pardb == "number" and order not in observed:
+                observed.add(order)
+                observe_parameters_from_data(M, m, case, db, span, order, tabs, cells, nv, kw, res, ctx_seed)
     cls_once("order_validity", [M.valid(o) for o in ORDERS])
     if len(outs) == 2:
         res.count("pairs_both_orders_compared")
@@ -679,13 +793,27 @@ def std_plan(spec):
     return dict(entries=entries, present=None) if entries else None
 
 
-def model_cases(spec, nvs=(1,)):
+def has_parameters(spec):
+    return any("par" in e["terms"] for e in spec["eqs"])
+
+
+def model_cases(spec, nvs=(1,), pardb_product=True):
+    """pardb_product=False (quick tier, the large listed 2-equation family): number item with no plan, Series item
+    with the standard plan, instead of {no plan, standard plan} x every kind of item"""
     cases = []
     for nv in nvs:
         cases.append(dict(plan=None, resmode="nonzero", nv=nv, prepend=True))
         sp = std_plan(spec)
         if sp:
             cases.append(dict(plan=sp, resmode="std", nv=nv, prepend=(nv == 2)))
+        if has_parameters(spec):
+            # the same inputs with an old calibration left in the databox under the parameters' names
+            for kind in pardb_kinds(nv):
+                if pardb_product or kind != "series" or not sp:
+                    cases.append(dict(plan=None, resmode="nonzero", nv=nv, prepend=True, pardb=kind,
+                                      observe_pfd=(kind == "number" and len(spec["eqs"]) == 1)))
+                if sp and (pardb_product or kind != "number"):
+                    cases.append(dict(plan=sp, resmode="std", nv=nv, prepend=(nv == 2), pardb=kind))
     # the same model written backwards and put in order by sequentialize(), simulated without and with the plan
     if len(spec["eqs"]) >= 2:
         cases.append(dict(plan=None, resmode="nonzero", nv=1, prepend=True, reverse=True))
@@ -780,6 +908,9 @@ def skeletons(quick):
 
 WINDOW_SUBSETS = [s for s in subsets(list(WINDOW)) if s]
 PRESENT_SUBSETS = subsets(list(WINDOW))
+NF_DATES_QUICK = [[1], [0, 2], [0, 1, 2]]
+PARDB_DATES_QUICK = [[0], [1, 2], [0, 1, 2]]
+TWO_EXTRA_DATES = [([0, 1], [1, 2]), ([2], [0, 1, 2]), ([0, 1, 2], [1])]
 
 
 def plan_cases(j, ptr, wd, nv, prepend, quick, lhs_tr=None):
@@ -798,6 +929,37 @@ def plan_cases(j, ptr, wd, nv, prepend, quick, lhs_tr=None):
             for resmode in ("zero", "nonzero"):
                 out.append(dict(plan=dict(entries=[[j, dates, ptr, wd]], present=None), resmode=resmode, nv=nv,
                                 prepend=prepend, zero_at=max(dates)))
+    # ---- plan data held in a differently named series (name_format=...) -------------------------------
+    # every presence subset of the exogenized dates x residual mode; first format: quick a listed set of date subsets,
+    # thorough every date subset; second format: quick the whole window (one or all data points present, non-zero input residual), thorough
+    # the listed date subsets.  The variable's own series (level plans) and the default-named series (other plan
+    # transforms) hold different, present values at every date of the window.
+    for k, nf in enumerate(NAME_FORMATS):
+        if quick:
+            date_sets = NF_DATES_QUICK if k == 0 else [list(WINDOW)]
+        else:
+            date_sets = WINDOW_SUBSETS if k == 0 else NF_DATES_QUICK
+        for dates in date_sets:
+            for present in PRESENT_SUBSETS:
+                if not set(present) <= set(dates):
+                    continue
+                if quick and k > 0 and len(present) not in (1, len(dates)):
+                    continue
+                for resmode in (("nonzero",) if (quick and k > 0) else ("zero", "nonzero")):
+                    out.append(dict(plan=dict(entries=[[j, dates, ptr, wd]], present=present, nf=nf), resmode=resmode,
+                                    nv=nv, prepend=prepend))
+        if lhs_tr in ZERO_LHS and ptr in ZERO_PTR:
+            out.append(dict(plan=dict(entries=[[j, list(WINDOW), ptr, wd]], present=None, nf=nf), resmode="nonzero",
+                            nv=nv, prepend=prepend, zero_at=WINDOW[-1]))
+    # ---- an old calibration left in the input databox (every skeleton has a parameter) ----------------
+    for kind in pardb_kinds(nv):
+        for dates in (PARDB_DATES_QUICK if quick else WINDOW_SUBSETS):
+            for resmode in ("zero", "nonzero"):
+                out.append(dict(plan=dict(entries=[[j, dates, ptr, wd]], present=None), resmode=resmode, nv=nv,
+                                prepend=prepend, pardb=kind))
+        # ... together with a custom name format and a missing data point
+        out.append(dict(plan=dict(entries=[[j, list(WINDOW), ptr, wd]], present=[0, 2], nf=NAME_FORMATS[0]), resmode="nonzero",
+                        nv=nv, prepend=prepend, pardb=kind))
     return out
 
 
@@ -809,6 +971,15 @@ def plan_cases_two(ptr, wd, nv, prepend):
             for resmode in ("zero", "nonzero"):
                 out.append(dict(plan=dict(entries=[[0, d0, ptr, wd], [1, d1, ptr, wd]], present=None),
                                 resmode=resmode, nv=nv, prepend=prepend))
+    # a listed set of pairs again with the plan data in differently named series / with an old calibration in the databox
+    for d0, d1 in TWO_EXTRA_DATES:
+        for resmode in ("zero", "nonzero"):
+            for nf in NAME_FORMATS:
+                out.append(dict(plan=dict(entries=[[0, d0, ptr, wd], [1, d1, ptr, wd]], present=None, nf=nf),
+                                resmode=resmode, nv=nv, prepend=prepend))
+            for kind in pardb_kinds(nv):
+                out.append(dict(plan=dict(entries=[[0, d0, ptr, wd], [1, d1, ptr, wd]], present=None),
+                                resmode=resmode, nv=nv, prepend=prepend, pardb=kind))
     return out
 
 
@@ -839,7 +1010,7 @@ def shard_models(item, res, ctx):
     else:
         raise KeyError(kind)
     for k, spec in enumerate(specs):
-        run_model_cases(spec, model_cases(spec, nvs), res, ctx.seed)
+        run_model_cases(spec, model_cases(spec, nvs, pardb_product=not (ctx.quick and kind == "two")), res, ctx.seed)
         if k == 0:
             res.sample({"part": "M", "model": Model(spec, ctx.seed).source(), "cases": "no plan + standard plan, both orders", "variants": list(nvs)})
 
@@ -850,7 +1021,9 @@ def shard_plans(item, res, ctx):
     M = run_model_cases(spec, cases, res, ctx.seed)
     if ptr == "pct" and wd:
         res.sample({"part": "P", "context": context, "model": M.source(), "exogenized": M.names[j], "plan_transform": ptr,
-                    "when_data": wd, "variants": nv, "cases": "%d (date subset x presence subset x residual mode) x orders" % len(cases)})
+                    "when_data": wd, "variants": nv, "cases": "%d (date subset x presence subset x residual mode, incl. %d with "
+                    "the plan data in a custom-named series and %d with an old calibration in the databox) x orders"
+                    % (len(cases), sum(1 for c in cases if c["plan"].get("nf")), sum(1 for c in cases if c.get("pardb")))})
 
 
 def shard_plans_two(item, res, ctx):
@@ -912,6 +1085,9 @@ def run(ctx, total, info):
         "two_variable_plans_per_skeleton": len(plan_cases_two("none", False, 1, False)) * len(TR) * (1 if quick else 2), "model_shards": len(shards_m),
         "plans_per_skeleton_variable": len(plan_cases(0, "none", False, 1, False, quick)) * 2 * len(TR),
         "simulated_periods": T, "window": list(WINDOW),
+        "plan_name_formats": list(NAME_FORMATS), "stale_parameter_items": list(PARDB) + ["list (2 variants)"],
+        "models_with_parameters_two_equation": sum(1 for f in first_specs(not quick) for s_ in second_specs(not quick)
+                                                   if has_parameters(dict(eqs=[f, s_]))),
     }
     info["bound_completed"] = "all listed families" if quick else "all 1- and 2-equation models; listed 3-equation and lead families"
     pairs = len(total.classes.get("lhs_x_plan_transform", ()))
@@ -930,15 +1106,27 @@ def run(ctx, total, info):
         "lhs_x_plan_transform_x_when_data_classes": pairs,
         "order_validity_classes": len(total.classes.get("order_validity", ())),
         "excluded_order_pairs": total.excluded["order_reads_before_write"],
+        # plan data held in a differently named series (name_format=...)
+        "cells_exogenized_custom_name": c["cells_exogenized_custom_name"],
+        "cells_exogenized_custom_name_level_transform": c["cells_exogenized_custom_name_level_transform"],
+        "cells_skipped_when_data_custom_name": c["cells_skipped_when_data_custom_name"],
+        "cells_exogenized_missing_custom_name": c["cells_exogenized_missing_custom_name"],
+        "custom_name_lhs_x_plan_transform_x_when_data_x_cell_classes": len(total.classes.get("custom_name_lhs_x_plan_transform", ())),
+        # an old calibration left in the input databox under the parameters' names
+        "cases_stale_parameters_number": c["cases_stale_parameters_number"],
+        "cases_stale_parameters_series": c["cases_stale_parameters_series"],
+        "cases_stale_parameters_list": c["cases_stale_parameters_list"],
+        "cells_parameter_equation_stale_number_in_databox": c["cells_parameter_equation_stale_number_in_databox"],
+        "cells_parameter_equation_stale_series_in_databox": c["cells_parameter_equation_stale_series_in_databox"],
     }
     required = QUICK_FLOORS if quick else THOROUGH_FLOORS
     info["floors"] = {k: (measured[k], required[k]) for k in required}
     info["floors"]["models_reversed_then_sequentialized"] = (c["models_built_reversed_then_sequentialized"], 2500 if quick else 20000)
 
 
-# vacuity floors: 50-60 % of what the unchanged tree measures (quick: 51 540 evaluations, 6 740 models built,
-# 38 184 + 38 184 exogenized cells with zero / non-zero input residual, 17 496 when_data cells without data,
-# 17 496 exogenized-to-missing cells, 249 648 simulated cells, 21 774 order pairs, 14 112 excluded order pairs)
+# vacuity floors: at most 50-60 % of what the unchanged tree measures (quick: 108 706 evaluations, 6 740 models built,
+# 79 700 + 86 180 exogenized cells with zero / non-zero input residual, 31 248 when_data cells without data,
+# 31 248 exogenized-to-missing cells, 560 312 simulated cells, 45 333 order pairs, 34 888 excluded order pairs)
 QUICK_FLOORS = {
     "evaluations": 30000, "distinct_nontrivial": 30000, "models_built": 4000, "cases_fully_judged": 20000,
     "cells_exogenized_zero_input_residual": 15000, "cells_exogenized_nonzero_input_residual": 15000,
@@ -946,6 +1134,14 @@ QUICK_FLOORS = {
     "cells_exogenized_to_exact_zero": 1000,
     "pairs_both_orders_compared": 11000, "lhs_x_plan_transform_x_when_data_classes": 60,
     "order_validity_classes": 3, "excluded_order_pairs": 7000,
+    # new dimensions (measured: 28 176 exogenized cells read from a custom-named series, 4 800 of them level plans,
+    # 13 752 + 13 752 skipped / missing cells, 108 classes; 10 068 + 10 068 + 2 082 cases and 59 376 + 59 376
+    # parameter-equation cells with a stale number / Series / list under the parameter's name)
+    "cells_exogenized_custom_name": 15000, "cells_exogenized_custom_name_level_transform": 2500,
+    "cells_skipped_when_data_custom_name": 7500, "cells_exogenized_missing_custom_name": 7500,
+    "custom_name_lhs_x_plan_transform_x_when_data_x_cell_classes": 90,
+    "cases_stale_parameters_number": 5000, "cases_stale_parameters_series": 5000, "cases_stale_parameters_list": 1000,
+    "cells_parameter_equation_stale_number_in_databox": 30000, "cells_parameter_equation_stale_series_in_databox": 30000,
 }
 THOROUGH_FLOORS = {     # measured: 914 748 evaluations, 51 524 models, 647 202 + 647 202 exogenized cells, 5 938 860 simulated cells
     "evaluations": 500000, "distinct_nontrivial": 500000, "models_built": 28000, "cases_fully_judged": 380000,
@@ -954,13 +1150,20 @@ THOROUGH_FLOORS = {     # measured: 914 748 evaluations, 51 524 models, 647 202 
     "cells_exogenized_to_exact_zero": 1000,
     "pairs_both_orders_compared": 190000, "lhs_x_plan_transform_x_when_data_classes": 60,
     "order_validity_classes": 3, "excluded_order_pairs": 180000,
+    # new dimensions: not measured on a full run; every one is a superset of the quick space many times over
+    # (12 x the plan shards with 3 x the custom-name plans each, 14 x the models with parameters), floors = 5 x quick floors
+    "cells_exogenized_custom_name": 75000, "cells_exogenized_custom_name_level_transform": 12500,
+    "cells_skipped_when_data_custom_name": 37500, "cells_exogenized_missing_custom_name": 37500,
+    "custom_name_lhs_x_plan_transform_x_when_data_x_cell_classes": 90,
+    "cases_stale_parameters_number": 25000, "cases_stale_parameters_series": 25000, "cases_stale_parameters_list": 5000,
+    "cells_parameter_equation_stale_number_in_databox": 150000, "cells_parameter_equation_stale_series_in_databox": 150000,
 }
 
 
 def replay(case):
     res = engine.Result()
     seed = int(case.get("seed", 0))
-    c = {k: case[k] for k in ("plan", "resmode", "nv", "prepend", "reverse", "zero_at") if k in case}
+    c = {k: case[k] for k in ("plan", "resmode", "nv", "prepend", "reverse", "zero_at", "pardb", "observe_pfd") if k in case}
     if "orders" in case:
         c["orders"] = case["orders"]
     run_model_cases(case["model"], [c], res, seed)
